@@ -159,6 +159,17 @@ func (r *Run) handleCounterexample(jr *JobResult, ob *ObligResult) int {
 		return 2
 	}
 	ob.Replay = path
+	if jr.AbstractReplay {
+		// schedule / environment harness: the counterexample is a sequence of environment choices
+		// (clock readings, stop requests, search restarts) that no deterministic native run can be
+		// forced to take; it is reported as an abstract counterexample with its model
+		line := fmt.Sprintf("VIOLATION property=%s replay=%s", r.o.Prop, path)
+		fmt.Println(line)
+		fmt.Printf("  harness=%s case=%d obligation=%s (%s) at %s — abstract counterexample over environment choices (see model)\n", jr.Harness, jr.Case, ob.ID, ob.Kind, ob.Pos)
+		r.violations = append(r.violations, fmt.Sprintf("%s case %d: %s", jr.Harness, jr.Case, ob.ID))
+		ob.Verdict = "violation (abstract counterexample)"
+		return 1
+	}
 	out, rerr := r.nativeReplay(jr, path)
 	reproduced := false
 	switch ob.Kind {
@@ -509,8 +520,8 @@ func addNativeStubs(ld *Loaded, ov map[string][]byte, replayPath string) error {
 		}
 		tf := ld.Prog.Fset.File(fd.Pos())
 		file := tf.Name()
-		if strings.Contains(file, "zz_vx") {
-			continue // harness functions are not rewritten
+		if strings.Contains(file, "zz_vx") || !strings.HasPrefix(file, repoDir+"/") {
+			continue // harness functions and functions outside the repository are not rewritten
 		}
 		src, ok2 := ov[file]
 		if !ok2 {
@@ -535,7 +546,9 @@ func addNativeStubs(ld *Loaded, ov map[string][]byte, replayPath string) error {
 		for _, f := range fd.Type.Params.List {
 			ty := text(f.Type.Pos(), f.Type.End())
 			if strings.HasPrefix(ty, "...") {
-				return fmt.Errorf("variadic function %s cannot be stubbed natively", name)
+				ptypes = nil
+				params = nil
+				break
 			}
 			names := f.Names
 			if len(names) == 0 {
@@ -548,6 +561,9 @@ func addNativeStubs(ld *Loaded, ov map[string][]byte, replayPath string) error {
 				args = append(args, pn)
 				ptypes = append(ptypes, ty)
 			}
+		}
+		if params == nil && len(fd.Type.Params.List) > 0 {
+			continue // variadic: the real function runs natively
 		}
 		results := ""
 		if fd.Type.Results != nil {
